@@ -2,6 +2,7 @@ package path
 
 import (
 	"errors"
+	"strings"
 )
 
 func build(source string, parsed any) PropertyPath {
@@ -57,7 +58,9 @@ func ParsePath(path string) (PropertyPath, error) {
 		return nil, err
 	}
 
-	propertyPath := build(path, parsed)
+	// white space is not significant in a path: the source kept for comments, traces and rule ordering is
+	// normalised so that line breaks in the path cannot leak into the generated code
+	propertyPath := build(strings.Join(strings.Fields(path), " "), parsed)
 
 	return propertyPath, nil
 }
